@@ -123,11 +123,13 @@ theorem C18_every_change_is_announced_run (n : Nat) (ops : List Op) :
       · exact ih (step st op).1 (by rw [step_d]; exact hd) out h evs g ho c hc
   exact key ops (init Defects.none n) rfl
 
-/-- **C18_partial — the code as implemented.** Same conclusion for `Defects.asImplemented` under the
-    decidable guard `opGuard`: the operation is neither a reference deletion naming a reference that does
-    not exist at the site, nor a stream closed before its acknowledgements. What is missing for the full
-    statement is exactly those two shapes (witnesses below). -/
-theorem C18_partial (st : State) (_hd : st.d = Defects.asImplemented) (op : Op) (hg : opGuard st op = true)
+/-- **C18_partial — the code before the fixes (and any combination of the switches).** Same conclusion
+    under the decidable guard `opGuard`: the operation is neither a reference deletion naming a reference that
+    does not exist at the site, nor a stream closed before its acknowledgements. Stated for
+    `Defects.beforeFixes`; the proof does not use the hypothesis (it holds whatever the switches are).
+    `/repo` now has both fixes (456214b + 9b21e0a, e303771): `Defects.asImplemented = Defects.none`
+    and the full statement `C18_every_change_is_announced` applies to the code's model. -/
+theorem C18_partial (st : State) (_hd : st.d = Defects.beforeFixes) (op : Op) (hg : opGuard st op = true)
     (st' : State) (evs : List Ev) (g : List Cell) (h : step st op = (st', .obs evs g)) :
     ∀ c, c ∈ g → Announced evs c := by
   obtain ⟨si, s1, acts, hp, rfl, rfl, _⟩ := step_obs h
@@ -175,7 +177,10 @@ theorem C18_imported_room_announced (dst : Site) (r : Room) (rd : RoomDef) (hr :
   subst hr
   exact findDef_setDef rd dst.defs
 
-/-! ### where the code as implemented breaks the full statement -/
+/-- the code's model is the intended one since the fixes -/
+theorem C18_asImplemented_is_none : Defects.asImplemented = Defects.none := rfl
+
+/-! ### where the code broke the full statement before the fixes (regression witnesses) -/
 
 def c (r e d : Nat) : Cell := { room := r, ent := e, day := d }
 
@@ -184,22 +189,22 @@ def c (r e d : Nat) : Cell := { room := r, ent := e, day := d }
     day 1) gains a row version) and marks nothing: the event triggered by the operation is empty, and a
     further recompute finds nothing to report — the change is never announced. -/
 theorem C18_breaks_refdelUnmarked :
-    (runOps (init Defects.asImplemented 1)
+    (runOps (init Defects.beforeFixes 1)
       [.room 0 1, .new 0 1 1 0, .new 0 2 1 0, .day 1, .refdel 0 1 2, .flush 0]).2.drop 4
       = [.obs [.data []] [c 1 0 1], .obs [.data []] []] := by decide
 
-/-- with the switch off the same history announces the cell -/
+/-- with the switch off (the code since 456214b) the same history leaves the row untouched: nothing to announce -/
 theorem C18_fixed_refdelUnmarked :
     (runOps (init Defects.none 1)
       [.room 0 1, .new 0 1 1 0, .new 0 2 1 0, .day 1, .refdel 0 1 2, .flush 0]).2.drop 4
-      = [.obs [.data [c 1 0 1, c 1 0 0]] [c 1 0 1], .obs [.data []] []] := by decide
+      = [.obs [.data []] [], .obs [.data []] []] := by decide
 
 /-- **C18_breaks_streamCloseEarly** (`graph_database.rs:331-339`). The recompute of a stream is requested
     when the stream is closed; the mutations still travel through the reader thread and the
     authorisation service, so the pass runs first, reports nothing, and the marks of the stream stay
     until some later operation requests a recompute (here: the flush). -/
 theorem C18_breaks_streamCloseEarly :
-    (runOps (init Defects.asImplemented 1)
+    (runOps (init Defects.beforeFixes 1)
       [.room 0 1, .stream 0 .early [(1, 1, 0), (2, 1, 1)], .flush 0]).2.drop 1
       = [.obs [.data [], .mark] [c 1 0 0, c 1 1 0], .obs [.data [c 1 0 0, c 1 1 0]] []] := by decide
 
